@@ -19,6 +19,7 @@ EXTENDS LLSDFormat
 
 MV(k, p) == [k |-> k, p |-> p]
 MErr == MV("err", <<>>)
+SameMV(a, b) == a.k = b.k /\ a.p = b.p     \* payloads are only compared within one kind
 
 IntWidth == [U8 |-> 1, U16 |-> 2, U32 |-> 4, U64 |-> 8, S8 |-> 1, S16 |-> 2, S32 |-> 4, S64 |-> 8, IPPORT |-> 2, BOOL |-> 1]
 Signed == {"S8", "S16", "S32", "S64"}
@@ -99,7 +100,7 @@ DomainOK == Fits(ty, orig)
 \* what is put on the event queue is LLSD (in particular: integers are S32, nothing else is invented)
 CarrierIsLLSD == phase # "msg" => IsLLSD(carried)
 \* the message that comes back equals the original, through the in-memory and the XML form
-RoundTrip == phase = "back" => result = orig
+RoundTrip == phase = "back" => SameMV(result, orig)
 \* an LLSD integer carries exactly the number: the narrow types are value-preserving
 NumberKept == (phase # "msg" /\ carried.t = "int" /\ ty \in Narrow) =>
                  LET w == Widen(orig.p, ty \in Signed) IN
